@@ -23,7 +23,9 @@ import (
 // driver) with NAT, QoS, RADIUS and the eBPF loader attached exactly through
 // the server's own Set* methods.
 //
-//	prefixes:  D (DISCOVER/OFFER only) | DR (ACKed) | DRN (ACKed and renewed once)
+//	prefixes:  D (DISCOVER/OFFER only) | DR (ACKed) | DRN (ACKed and renewed once) |
+//	           DRL (ACKed; the lease time runs out; the client renews LATE, i.e. at an instant between
+//	           the expiry and the next tick of the one-minute cleanup sweep) | X = as L but DISCOVER+REQUEST
 //	paths:     RELEASE | DECLINE | EXPIRY (lease time passes + cleanup ticker) |
 //	           AUTHFAIL (the REQUEST is rejected by RADIUS; prefix D, radius-auth only)
 const (
@@ -35,11 +37,23 @@ const (
 
 func dhcpKind(name string, relayed bool) kindDef {
 	return kindDef{
-		name:     name,
-		cfgs:     []string{"radius-auth", "radius-acct", "no-radius"},
-		prefixes: func(string) []string { return []string{"D", "DR", "DRN"} },
-		// thorough: DISCOVER repeated; DISCOVER again while holding a lease (re-offer of the leased address); two renewals
-		morePrefixes: func(string) []string { return []string{"DD", "DRD", "DRNN"} },
+		name: name,
+		// .../fault=acct-stop: the RADIUS server fails the victim's Accounting-Stop; everything else must still be released
+		cfgs: []string{"radius-auth", "radius-acct", "no-radius", "radius-acct/fault=acct-stop"},
+		prefixes: func(cfg string) []string {
+			if strings.Contains(cfg, "/fault=") {
+				return []string{"DR"}
+			}
+			return []string{"D", "DR", "DRN", "DRL"}
+		},
+		// thorough: DISCOVER repeated; DISCOVER again while holding a lease (re-offer of the leased address); two renewals;
+		// late renewals after an ordinary one / twice; the client starting over (DISCOVER+REQUEST) in the expiry window
+		morePrefixes: func(cfg string) []string {
+			if strings.Contains(cfg, "/fault=") {
+				return []string{"DRN", "DRL"}
+			}
+			return []string{"DD", "DRD", "DRNN", "DRNL", "DRLL", "DRX"}
+		},
 		paths: func(cfg, prefix string) []string {
 			p := []string{"RELEASE", "DECLINE", "EXPIRY"}
 			if !strings.Contains(prefix, "R") && cfg == "radius-auth" {
@@ -63,8 +77,9 @@ type dhcpWorld struct {
 	vAddr   net.IP // the address the victim was offered / leased
 	vLeased bool   // the victim got an ACK
 	bAddr   net.IP
-	decl    bool   // a DECLINE of the leased address was delivered while the victim held the lease
-	wait    func() // lets goroutines settle (synctest.Wait in a bubble; nil under the controlled scheduler)
+	decl    bool             // a DECLINE of the leased address was delivered while the victim held the lease
+	now     func() time.Time // the execution's clock (nil: time.Now, virtual inside a bubble)
+	wait    func()           // lets goroutines settle (synctest.Wait in a bubble; nil under the controlled scheduler)
 	viols   []viol
 }
 
@@ -113,7 +128,7 @@ func (w *dhcpWorld) step(c dhcpClient, s byte, addr net.IP) (net.IP, dhcpv4.Mess
 // newDHCPWorld builds server + collaborators and establishes the bystander.
 // now/sleep: the clock of the execution (bubble or controlled scheduler).
 func newDHCPWorld(e *kenv, cfg string, relayed bool, wait func(), now func() time.Time, sleep func(time.Duration)) *dhcpWorld {
-	w := &dhcpWorld{e: e, wait: wait}
+	w := &dhcpWorld{e: e, wait: wait, now: now}
 	w.v = dhcpClient{name: "victim", mac: net.HardwareAddr{2, 0, 0, 0, 0, 0x01}}
 	w.b = dhcpClient{name: "bystander", mac: net.HardwareAddr{2, 0, 0, 0, 0, 0x0b}}
 	if relayed {
@@ -125,8 +140,12 @@ func newDHCPWorld(e *kenv, cfg string, relayed bool, wait func(), now func() tim
 	w.natM = e.natManager(1)
 	qm, pol := e.qosManager()
 	w.qosM = qm
+	cfg, fault, _ := strings.Cut(cfg, "/fault=")
 	if cfg != "no-radius" {
 		w.rs = newRadiusScript()
+		if fault == "acct-stop" {
+			w.rs.failStop[w.v.mac.String()] = true
+		}
 	}
 	w.d = dhcpdrv.NewV4(dhcpdrv.V4Config{Network: dhcpNetwork, Gateway: dhcpGateway, Lease: dhcpLease, Loader: loader,
 		RADIUSAuth: cfg == "radius-auth", Sleep: sleep, Now: now,
@@ -180,6 +199,19 @@ func runDHCP(e *kenv, k kase, relayed bool) (res result) {
 			if _, mt := w.step(w.v, 'N', w.vAddr); mt != dhcpv4.MessageTypeAck {
 				panic("harness: victim renewal not acknowledged")
 			}
+		case 'L', 'X':
+			// the lease time runs out, and the client comes back between the expiry and the sweep that would remove the lease
+			w.advanceIntoExpiryWindow()
+			if k.Prefix[i] == 'X' {
+				if a, _ := w.step(w.v, 'D', nil); !a.Equal(w.vAddr) {
+					panic(fmt.Sprintf("harness: late DISCOVER offered %v, the client held %v", a, w.vAddr))
+				}
+				if _, mt := w.step(w.v, 'R', w.vAddr); mt != dhcpv4.MessageTypeAck {
+					panic("harness: late REQUEST not acknowledged")
+				}
+			} else if _, mt := w.step(w.v, 'N', w.vAddr); mt != dhcpv4.MessageTypeAck {
+				panic("harness: late renewal not acknowledged")
+			}
 		}
 	}
 	res.held = w.holdings()
@@ -215,7 +247,7 @@ func (w *dhcpWorld) nrec() int {
 	if w.rs == nil {
 		return 0
 	}
-	return len(w.rs.records())
+	return w.rs.nAttempts()
 }
 
 // holdings describes what the victim holds right now (evidence only).
@@ -272,16 +304,9 @@ func (w *dhcpWorld) terminate(path string) {
 			w.decl = true
 		}
 	case "EXPIRY":
-		// the bystander renews now and half-way so that only the victim's lease runs out
-		if _, mt := w.step(w.b, 'N', w.bAddr); mt != dhcpv4.MessageTypeAck {
-			panic("harness: bystander renewal not acknowledged")
-		}
-		w.d.Advance(dhcpLease / 2)
-		if _, mt := w.step(w.b, 'N', w.bAddr); mt != dhcpv4.MessageTypeAck {
-			panic("harness: bystander renewal not acknowledged")
-		}
-		w.d.Advance(dhcpLease/2 + time.Second)
-		w.d.Advance(61 * time.Second) // at least one cleanup tick after the expiry
+		// only the victim's lease runs out (the bystander keeps renewing)
+		w.advance(dhcpLease + time.Second)
+		w.advance(61 * time.Second) // at least one cleanup tick after the expiry
 		w.settle()
 	case "AUTHFAIL":
 		w.rs.mu.Lock()
@@ -293,6 +318,62 @@ func (w *dhcpWorld) terminate(path string) {
 	default:
 		panic("unknown termination path " + path)
 	}
+}
+
+func (w *dhcpWorld) clock() time.Time {
+	if w.now != nil {
+		return w.now()
+	}
+	return time.Now()
+}
+
+// advance lets d pass (cleanup ticks included) in steps of at most half a lease time; the bystander
+// renews before every step and at the end, so that its lease never runs out.
+func (w *dhcpWorld) advance(d time.Duration) {
+	renew := func() {
+		if _, mt := w.step(w.b, 'N', w.bAddr); mt != dhcpv4.MessageTypeAck {
+			panic("harness: bystander renewal not acknowledged")
+		}
+	}
+	for d > 0 {
+		renew()
+		c := d
+		if c > dhcpLease/2 {
+			c = dhcpLease / 2
+		}
+		w.d.Advance(c)
+		d -= c
+	}
+	renew()
+}
+
+// advanceIntoExpiryWindow moves the clock to the middle of the interval between the victim's lease
+// expiry and the first cleanup tick that will find it expired (ticks run at Start + k*60 s).
+func (w *dhcpWorld) advanceIntoExpiryWindow() {
+	var exp time.Time
+	for _, l := range w.d.Leases() {
+		if l.Key == w.v.mac.String() {
+			exp = l.ExpiresAt
+		}
+	}
+	if exp.IsZero() {
+		panic("harness: the victim has no lease that could run out")
+	}
+	k := exp.Sub(w.d.Start)/dhcpdrv.CleanupPeriod + 1
+	sweep := w.d.Start.Add(k * dhcpdrv.CleanupPeriod) // first tick strictly after the expiry
+	target := exp.Add(sweep.Sub(exp) / 2)
+	if d := target.Sub(w.clock()); d > 0 {
+		w.advance(d)
+	}
+	if now := w.clock(); !now.After(exp) || !now.Before(sweep) {
+		panic(fmt.Sprintf("harness: clock %v is not between expiry %v and sweep %v", now, exp, sweep))
+	}
+	for _, l := range w.d.Leases() {
+		if l.Key == w.v.mac.String() {
+			return
+		}
+	}
+	panic("harness: the victim's lease was swept before the late request")
 }
 
 func contains(l []string, s string) bool {
@@ -359,13 +440,8 @@ func (w *dhcpWorld) checkReleased(site string) {
 	}
 	// O4
 	if w.rs != nil {
-		starts, stops := w.rs.count(vm)
-		want := 0
-		if starts > 0 {
-			want = 1
-		}
-		if stops != want {
-			w.add("accounting-stop-count", site, "%d Accounting-Start and %d Accounting-Stop for the victim (want %d Stop): %s", starts, stops, want, w.rs.render())
+		for _, c := range w.rs.stopOracle(vm) {
+			w.add("accounting-stop-count", site, "%s: %s", c, w.rs.render())
 		}
 		if _, bs := w.rs.count(w.b.mac.String()); bs != 0 {
 			w.add("bystander-damaged", site, "the bystander's session got an Accounting-Stop: %s", w.rs.render())
